@@ -4,14 +4,20 @@ import SF.Props.C13
 import SF.Props.C05
 import SF.Props.C06
 import SF.Lemmas.Invariance
+import SF.Lemmas.Invariance4
+import SF.Lemmas.Invariance5
 import Mathlib.Data.List.Induction
 /-
   C12 — Normalised indicators are invariant to units, offset and sign.
   Stated on the batch definitions (equal to the state machines by C02 / C04 / C13) for all a > 0, all b, every N and
   every history.  Views proved so far: Sma, Ema, Cumulative (homogeneity), Min / Max (homogeneity and the Min/Max swap
   under negation), LnReturn and Drawdown (scale invariance), HLNormalizer (affine invariance, negation), NET (affine invariance,
-  negation), BinaryEntropy, Rsi, MyRSI (incl. held values), CenterOfGravity (scale invariance).  The remaining views of the statement are decided by the
-  exact relational runs of `./check C12`; see DESIGN.md for the list.
+  negation), BinaryEntropy, Rsi, MyRSI (incl. held values), CenterOfGravity (scale invariance); WelfordOnline (scales with
+  the unit, ignores an offset), Vsct (affine invariance, negation), Vst (scale invariance off flat windows, negation), CTI
+  (affine invariance, negation, at ℝ), Roc and LaguerreRSI (scale invariance, held values included), TrendFlex / ReFlex (scale
+  invariance and negation, at ℝ), EhlersFisherTransform (affine invariance, any smoothing average).  Still decided only by the
+  exact relational runs of `./check C12`: Alma and CyberCycle homogeneity, Rsi ↦ 100 − Rsi and MyRSI ↦ −MyRSI (proved as
+  C05's negation symmetry), EFT / LaguerreRSI under negation.
 -/
 namespace SF.C12
 open SF SF.Spec
@@ -255,4 +261,51 @@ theorem cog_scale (N : Nat) (a : α) (ha : 0 < a) (xs : List α) :
       simp only [beq_iff_eq, nat_eq, Nat.cast_zero, h0, this, if_false]
       rw [mul_div_mul_left _ _ ha.ne']
 
+/-! ### Roc, LaguerreRSI, the Fisher transform (any ordered field) -/
+section more_field
+variable [Transc α]
+/-- **Roc is invariant under x ↦ a·x (a ≠ 0)**, held outputs included -/
+theorem roc_scale (N : Nat) (a : α) (ha : a ≠ 0) (xs : List α) : Spec.roc N (xs.map fun x => a * x) = Spec.roc N xs :=
+  Inv3.roc_scale N a ha xs
+/-- **LaguerreRSI is invariant under x ↦ a·x, a > 0**, held outputs included -/
+theorem laguerreRsi_scale (N : Nat) (a : α) (ha : 0 < a) (xs : List α) :
+    Spec.laguerreRsi N (xs.map fun x => a * x) = Spec.laguerreRsi N xs := Inv3.laguerreRsi_scale N a ha xs
+/-- **EhlersFisherTransform is invariant under x ↦ a·x + b, a > 0**, for every smoothing average -/
+theorem fisher_affine (N : Nat) (ma : List α → Option α) (a b : α) (ha : 0 < a) (xs : List α) :
+    Spec.fisher N ma (xs.map fun x => a * x + b) = Spec.fisher N ma xs := Inv5.fisher_affine N ma a b ha xs
+end more_field
+
 end SF.C12
+
+namespace SF.C12.Real
+open SF SF.Spec
+/-- **WelfordOnline scales with the unit and ignores an offset**: std of the window of a·x + b is a·std, a > 0 -/
+theorem welford_affine (N : Nat) (a b : ℝ) (ha : 0 < a) (xs : List ℝ) :
+    Spec.welford N (xs.map fun x => a * x + b) = (Spec.welford N xs).map fun s => a * s := Inv2.welford_affine N a b ha xs
+/-- **Vsct is invariant under x ↦ a·x + b (a > 0)**, flat windows included -/
+theorem vsct_affine (N : Nat) (hN : 0 < N) (a b : ℝ) (ha : 0 < a) (xs : List ℝ) :
+    Spec.vsct N (xs.map fun x => a * x + b) = Spec.vsct N xs := Inv2.vsct_affine N hN a b ha xs
+/-- **negating the input negates Vsct** -/
+theorem vsct_neg (N : Nat) (hN : 0 < N) (xs : List ℝ) :
+    Spec.vsct N (xs.map fun x => -x) = (Spec.vsct N xs).map fun v => -v := Inv2.vsct_neg N hN xs
+/-- **Vst is invariant under x ↦ a·x (a > 0) whenever the window is not flat** (on a flat window it reports the value itself) -/
+theorem vst_scale (N : Nat) (a : ℝ) (ha : 0 < a) (xs : List ℝ) (sd : ℝ) (hsd : Spec.welford N xs = some sd) (hne : sd ≠ 0) :
+    Spec.vst N (xs.map fun x => a * x) = Spec.vst N xs := Inv2.vst_scale N a ha xs sd hsd hne
+/-- **negating the input negates Vst** -/
+theorem vst_neg (N : Nat) (xs : List ℝ) (hx : xs ≠ []) :
+    Spec.vst N (xs.map fun x => -x) = (Spec.vst N xs).map fun v => -v := Inv2.vst_neg N xs hx
+/-- **CTI (on a full window: the Pearson index) is invariant under x ↦ a·x + b, a > 0, and is negated by x ↦ −x** -/
+theorem cti_affine (N : Nat) (a b : ℝ) (ha : 0 < a) (xs : List ℝ) :
+    Spec.cti N (xs.map fun x => a * x + b) = Spec.cti N xs := Inv2.cti_affine N a b ha xs
+theorem cti_neg (N : Nat) (xs : List ℝ) :
+    Spec.cti N (xs.map fun x => -x) = (Spec.cti N xs).map fun v => -v := Inv2.cti_neg N xs
+/-- **TrendFlex and ReFlex are invariant under x ↦ a·x, a > 0, and negated by x ↦ −x** (held outputs of ReFlex included) -/
+theorem trendFlex_scale (N : Nat) (a : ℝ) (ha : 0 < a) (xs : List ℝ) :
+    Spec.trendFlex N (xs.map fun x => a * x) = Spec.trendFlex N xs := Inv4.trendFlex_scale N a ha xs
+theorem reFlex_scale (N : Nat) (a : ℝ) (ha : 0 < a) (xs : List ℝ) :
+    Spec.reFlex N (xs.map fun x => a * x) = Spec.reFlex N xs := Inv4.reFlex_scale N a ha xs
+theorem trendFlex_neg (N : Nat) (xs : List ℝ) :
+    Spec.trendFlex N (xs.map fun x => -x) = (Spec.trendFlex N xs).map fun v => -v := Inv4.trendFlex_neg N xs
+theorem reFlex_neg (N : Nat) (xs : List ℝ) :
+    Spec.reFlex N (xs.map fun x => -x) = (Spec.reFlex N xs).map fun v => -v := Inv4.reFlex_neg N xs
+end SF.C12.Real
